@@ -33,6 +33,20 @@ def _work(cfg):
     return out
 
 
+def judge_valid(cfg, res):
+    """for configurations that are valid by construction: every execution must run to completion"""
+    out = []
+    for outcome, path in res.get("nonfinal", []):
+        if outcome[0] == "exc":
+            fp = dict(kind="valid_composition_failed", error=outcome[1])
+            if len(outcome) > 4:
+                fp.update(phase=outcome[3], why=outcome[4])
+            out.append((fp, f"run() of a valid composition failed with {outcome[1]}: {outcome[2]}", path))
+        elif outcome[0] in ("circular", "hang"):
+            out.append((dict(kind="valid_composition_failed", error=outcome[0]), f"run() of a valid composition ended with {outcome[0]}: {str(outcome[1:])[:150]}", path))
+    return out
+
+
 def run_cases(cases, clauses, agg, judge=None, seed=0):
     global _CLAUSES, _JUDGE
     _CLAUSES, _JUDGE = tuple(clauses), judge
